@@ -8,6 +8,7 @@ use core::{
 use crate::autocomplete::{Autocompletion, Request};
 
 #[cfg_attr(feature = "verif-hooks", derive(Clone))]
+#[cfg_attr(feature = "verif-hooks", derive(Hash))]
 pub struct Editor<B: Buffer> {
     buffer: B,
 
@@ -256,11 +257,38 @@ impl<B: Buffer> Editor<B> {
         (self.buffer.as_slice(), self.valid, self.cursor)
     }
 
+    /// Hash over every field of the struct (the buffer contributes what its own `Hash` impl chooses)
+    pub fn __verif_struct_hash(&self) -> u64
+    where
+        B: core::hash::Hash,
+    {
+        __verif_hash_of(self)
+    }
+
     /// Overwrite bytes that are not part of the line
     pub fn __verif_poison(&mut self, byte: u8) {
         let valid = self.valid;
         self.buffer.as_slice_mut()[valid..].fill(byte);
     }
+}
+
+/// FNV-1a over whatever `Hash` feeds (no_std: no std hasher available)
+#[cfg(feature = "verif-hooks")]
+pub(crate) fn __verif_hash_of<T: core::hash::Hash>(value: &T) -> u64 {
+    struct Fnv(u64);
+    impl core::hash::Hasher for Fnv {
+        fn finish(&self) -> u64 {
+            self.0
+        }
+        fn write(&mut self, bytes: &[u8]) {
+            for b in bytes {
+                self.0 = (self.0 ^ *b as u64).wrapping_mul(0x100000001b3);
+            }
+        }
+    }
+    let mut h = Fnv(0xcbf29ce484222325);
+    value.hash(&mut h);
+    core::hash::Hasher::finish(&h)
 }
 
 #[cfg(test)]
